@@ -192,6 +192,9 @@ func init() {
 			if err := n.same(rd, c.Seed); err != nil {
 				return rp.Fail(i, "%v", err)
 			}
+			if r := reusedReceiver(i, want, rd); r != nil {
+				return *r
+			}
 			return rp.Result{OK: true}
 
 		case "hdrbyte":
@@ -215,6 +218,9 @@ func init() {
 			}
 			_ = h.String()
 			_ = rd.String()
+			if r := reusedReceiver(i, want, rd); r != nil {
+				return *r
+			}
 			if cs.Canonical {
 				again, err := rd.MarshalBinary()
 				if err != nil || !bytes.Equal(again, want) {
@@ -239,4 +245,26 @@ func classifyRecord(got, want []byte) string {
 		return "C12/record-reserved-bits-missing"
 	}
 	return ""
+}
+
+// reusedReceiver: unmarshalling into a NALU that held another unit before gives the same value as
+// unmarshalling into a fresh one (nothing of the previous unit survives).
+func reusedReceiver(i int, want []byte, fresh *avc.NALU) *rp.Result {
+	re := avc.NewNALU()
+	if err := re.UnmarshalBinary([]byte{0x67, 0x42, 0x00, 0x1e}); err != nil {
+		r := rp.Fail(i, "unmarshal of a 4-byte NAL unit failed: %v", err)
+		return &r
+	}
+	if err := re.UnmarshalBinary(want); err != nil {
+		r := rp.Fail(i, "unmarshal into a used receiver failed: %v", err)
+		return &r
+	}
+	a, _ := re.MarshalBinary()
+	b, _ := fresh.MarshalBinary()
+	if re.NALRefIDC != fresh.NALRefIDC || re.NALUType != fresh.NALUType || !bytes.Equal(re.Data, fresh.Data) || re.Size() != fresh.Size() || !bytes.Equal(a, b) {
+		r := rp.Fail(i, "a NALU value that held another unit before unmarshals %d bytes to (nri %d type %d, %d payload bytes, Size %d), a fresh one to (nri %d type %d, %d payload bytes, Size %d)",
+			len(want), re.NALRefIDC, re.NALUType, len(re.Data), re.Size(), fresh.NALRefIDC, fresh.NALUType, len(fresh.Data), fresh.Size())
+		return &r
+	}
+	return nil
 }
